@@ -184,3 +184,128 @@ def item_texts(path):
             name = f"{base} #{k}"; k += 1
         res[name] = text
     return res
+
+
+# ---- line ranges (study aid for tools/coverage.py; the digests above do not depend on anything below) ----
+
+def _blank_comments(src):
+    """`src` with every comment replaced by blanks (newlines kept), so that offsets and line numbers survive"""
+    out, i, n = [], 0, len(src)
+
+    def blank(a, b):
+        out.append("".join(ch if ch == "\n" else " " for ch in src[a:b]))
+    while i < n:
+        c = src[i]
+        if src.startswith("//", i):
+            j = src.find("\n", i)
+            j = n if j < 0 else j
+            blank(i, j); i = j
+        elif src.startswith("/*", i):
+            j = src.find("*/", i + 2)
+            j = n if j < 0 else j + 2
+            blank(i, j); i = j
+        elif c == '"':
+            j = i + 1
+            while j < n and src[j] != '"':
+                j += 2 if src[j] == "\\" else 1
+            out.append(src[i:j + 1]); i = j + 1
+        elif c == "r" and re.match(r'r#*"', src[i:i + 40]):
+            m = re.match(r'r(#*)"', src[i:i + 40]); end = '"' + m.group(1)
+            j = src.find(end, i + len(m.group(0)))
+            j = n if j < 0 else j + len(end)
+            out.append(src[i:j]); i = j
+        elif c == "'" and re.match(r"'(\\.|[^\\'])'", src[i:i + 8]):
+            m = re.match(r"'(\\.|[^\\'])'", src[i:i + 8]); out.append(m.group(0)); i += len(m.group(0))
+        else:
+            out.append(c); i += 1
+    return "".join(out)
+
+
+def item_ranges(path):
+    """{name: (first_line, last_line)} (1-based, inclusive, attributes included) for the same items and names as
+    `item_texts(path)`; raises AssertionError if the two scans ever disagree on names or normalised texts"""
+    return dict(_item_scan(path)[0])
+
+
+@functools.lru_cache(maxsize=None)
+def _item_scan(path):
+    """(line ranges, offset ranges, comment-blanked source) behind `item_ranges` / `line_ranges`"""
+    src = _blank_comments(open(path, encoding="utf-8").read())
+    n, i, depth, par, start, chunks = len(src), 0, 0, 0, 0, []
+    while i < n:
+        c = src[i]
+        if c == '"':
+            j = i + 1
+            while j < n and src[j] != '"':
+                j += 2 if src[j] == "\\" else 1
+            i = j + 1
+            continue
+        if c == "'":
+            m = re.match(r"'(\\.|[^\\'])'", src[i:i + 8])
+            if m:
+                i += len(m.group(0))
+                continue
+        if c == "{":
+            depth += 1
+        elif c == "}":
+            depth -= 1
+            if depth == 0 and par == 0:
+                chunks.append((start, i + 1)); start = i + 1
+        elif c in "([":
+            par += 1
+        elif c in ")]":
+            par -= 1
+        elif c == ";" and depth == 0 and par == 0:
+            chunks.append((start, i + 1)); start = i + 1
+        i += 1
+    res, texts = {}, {}
+    for a, b in chunks:
+        ch = src[a:b]
+        text = " ".join(ch.split())
+        if not text:
+            continue
+        if re.search(r'#\[cfg\(test\)\]\s*mod\b', text) or re.match(r'(pub\s+)?(use|mod|extern)\b', re.sub(r'#!?\[[^\]]*\]\s*', '', text)):
+            continue
+        body = re.sub(r'^(#!?\[(?:[^\[\]]|\[[^\]]*\])*\]\s*)+', '', text)
+        if not ITEM.match(body):
+            continue
+        head = re.split(r'[{;(=]|\bwhere\b', body, 1)[0].strip()
+        head = re.sub(r'<[^<>]*(<[^<>]*>[^<>]*)*>', '', head).strip()
+        name = " ".join(head.split())
+        k, base = 2, name
+        while name in res:
+            name = f"{base} #{k}"; k += 1
+        a2 = a + (len(ch) - len(ch.lstrip()))
+        res[name] = (a2, b)
+        texts[name] = text
+    ref = item_texts(path)
+    assert list(ref) == list(res), f"{path}: item_ranges and item_texts disagree on the item names"
+    for k in ref:
+        assert "".join(ref[k].split()) == "".join(texts[k].split()), f"{path}: item_ranges and item_texts disagree on {k}"
+    line = lambda off: src.count("\n", 0, off) + 1
+    return {k: (line(a), line(b - 1)) for k, (a, b) in res.items()}, {k: v for k, v in res.items()}, src
+
+
+def line_ranges(path, names):
+    """{name: (first_line, last_line) or None} for plain item names and slice names (see `slice_name`)"""
+    ranges, offs, src = _item_scan(path)
+    out = {}
+    for nme in names:
+        if SLICE not in nme:
+            out[nme] = ranges.get(nme)
+            continue
+        item, rng = nme.split(SLICE, 1)
+        s, e = rng.split(" ... ", 1)
+        if item not in offs:
+            out[nme] = None
+            continue
+        a, b = offs[item]
+        pos = [k for k in range(a, b) if not src[k].isspace()]
+        t = "".join(src[k] for k in pos)
+        i = t.find("".join(s.split()))
+        j = t.find("".join(e.split()), i + 1) if i >= 0 else -1
+        if i < 0 or j < 0:
+            out[nme] = None
+            continue
+        out[nme] = (src.count("\n", 0, pos[i]) + 1, src.count("\n", 0, pos[j - 1]) + 1)
+    return out
